@@ -86,116 +86,116 @@ func ref_set__Ref_string(reference *ref_string_x, value string) struct{} {
     return struct{}{}
 }
 
-type ref_vec_token_x struct {
+type ref_Vec_Token_x struct {
     value []Token
 }
 
-func ref__Ref_Vec_Token(value []Token) *ref_vec_token_x {
-    return &ref_vec_token_x{
+func ref__Ref_Vec_Token(value []Token) *ref_Vec_Token_x {
+    return &ref_Vec_Token_x{
         value: value,
     }
 }
 
-func ref_get__Ref_Vec_Token(reference *ref_vec_token_x) []Token {
+func ref_get__Ref_Vec_Token(reference *ref_Vec_Token_x) []Token {
     return reference.value
 }
 
-func ref_set__Ref_Vec_Token(reference *ref_vec_token_x, value []Token) struct{} {
+func ref_set__Ref_Vec_Token(reference *ref_Vec_Token_x, value []Token) struct{} {
     reference.value = value
     return struct{}{}
 }
 
-type ref_value_x struct {
+type ref_Value_x struct {
     value Value
 }
 
-func ref__Ref_Value(value Value) *ref_value_x {
-    return &ref_value_x{
+func ref__Ref_Value(value Value) *ref_Value_x {
+    return &ref_Value_x{
         value: value,
     }
 }
 
-func ref_get__Ref_Value(reference *ref_value_x) Value {
+func ref_get__Ref_Value(reference *ref_Value_x) Value {
     return reference.value
 }
 
-func ref_set__Ref_Value(reference *ref_value_x, value Value) struct{} {
+func ref_set__Ref_Value(reference *ref_Value_x, value Value) struct{} {
     reference.value = value
     return struct{}{}
 }
 
-type ref_vec_sexpr_x struct {
+type ref_Vec_SExpr_x struct {
     value []SExpr
 }
 
-func ref__Ref_Vec_SExpr(value []SExpr) *ref_vec_sexpr_x {
-    return &ref_vec_sexpr_x{
+func ref__Ref_Vec_SExpr(value []SExpr) *ref_Vec_SExpr_x {
+    return &ref_Vec_SExpr_x{
         value: value,
     }
 }
 
-func ref_get__Ref_Vec_SExpr(reference *ref_vec_sexpr_x) []SExpr {
+func ref_get__Ref_Vec_SExpr(reference *ref_Vec_SExpr_x) []SExpr {
     return reference.value
 }
 
-func ref_set__Ref_Vec_SExpr(reference *ref_vec_sexpr_x, value []SExpr) struct{} {
+func ref_set__Ref_Vec_SExpr(reference *ref_Vec_SExpr_x, value []SExpr) struct{} {
     reference.value = value
     return struct{}{}
 }
 
-type ref_vec_binding_x struct {
+type ref_Vec_Binding_x struct {
     value []Binding
 }
 
-func ref__Ref_Vec_Binding(value []Binding) *ref_vec_binding_x {
-    return &ref_vec_binding_x{
+func ref__Ref_Vec_Binding(value []Binding) *ref_Vec_Binding_x {
+    return &ref_Vec_Binding_x{
         value: value,
     }
 }
 
-func ref_get__Ref_Vec_Binding(reference *ref_vec_binding_x) []Binding {
+func ref_get__Ref_Vec_Binding(reference *ref_Vec_Binding_x) []Binding {
     return reference.value
 }
 
-func ref_set__Ref_Vec_Binding(reference *ref_vec_binding_x, value []Binding) struct{} {
+func ref_set__Ref_Vec_Binding(reference *ref_Vec_Binding_x, value []Binding) struct{} {
     reference.value = value
     return struct{}{}
 }
 
-type ref_vec_string_x struct {
+type ref_Vec_string_x struct {
     value []string
 }
 
-func ref__Ref_Vec_string(value []string) *ref_vec_string_x {
-    return &ref_vec_string_x{
+func ref__Ref_Vec_string(value []string) *ref_Vec_string_x {
+    return &ref_Vec_string_x{
         value: value,
     }
 }
 
-func ref_get__Ref_Vec_string(reference *ref_vec_string_x) []string {
+func ref_get__Ref_Vec_string(reference *ref_Vec_string_x) []string {
     return reference.value
 }
 
-func ref_set__Ref_Vec_string(reference *ref_vec_string_x, value []string) struct{} {
+func ref_set__Ref_Vec_string(reference *ref_Vec_string_x, value []string) struct{} {
     reference.value = value
     return struct{}{}
 }
 
-type ref_vec_value_x struct {
+type ref_Vec_Value_x struct {
     value []Value
 }
 
-func ref__Ref_Vec_Value(value []Value) *ref_vec_value_x {
-    return &ref_vec_value_x{
+func ref__Ref_Vec_Value(value []Value) *ref_Vec_Value_x {
+    return &ref_Vec_Value_x{
         value: value,
     }
 }
 
-func ref_get__Ref_Vec_Value(reference *ref_vec_value_x) []Value {
+func ref_get__Ref_Vec_Value(reference *ref_Vec_Value_x) []Value {
     return reference.value
 }
 
-func ref_set__Ref_Vec_Value(reference *ref_vec_value_x, value []Value) struct{} {
+func ref_set__Ref_Vec_Value(reference *ref_Vec_Value_x, value []Value) struct{} {
     reference.value = value
     return struct{}{}
 }
@@ -234,7 +234,7 @@ type Lambda struct {
     params []string
     body SExpr
     env []Binding
-    global *ref_vec_binding_x
+    global *ref_Vec_Binding_x
 }
 
 type Token interface {
@@ -609,7 +609,7 @@ func lex(source__27 string) []Token {
     var ret394 []Token
     var len__28 int32 = string_len(source__27)
     var toks0__29 []Token = nil
-    var toks__30 *ref_vec_token_x = ref__Ref_Vec_Token(toks0__29)
+    var toks__30 *ref_Vec_Token_x = ref__Ref_Vec_Token(toks0__29)
     var i__31 *ref_int32_x = ref__Ref_int32(0)
     var cond395 bool
     for {
@@ -664,7 +664,7 @@ func env_lookup(env__35 []Binding, name__36 string) Value {
     var t224 int32 = t225 - 1
     var i__37 *ref_int32_x = ref__Ref_int32(t224)
     var t226 Value = Nil{}
-    var result__38 *ref_value_x = ref__Ref_Value(t226)
+    var result__38 *ref_Value_x = ref__Ref_Value(t226)
     var done__39 *ref_bool_x = ref__Ref_bool(false)
     var cond397 bool
     for {
@@ -719,7 +719,7 @@ func lookup(local__41 []Binding, global__42 []Binding, name__43 string) Value {
 func parse_list(tokens__45 []Token, start__46 int32) Tuple2_Vec_SExpr_int32 {
     var ret399 Tuple2_Vec_SExpr_int32
     var acc__47 []SExpr = nil
-    var exprs__48 *ref_vec_sexpr_x = ref__Ref_Vec_SExpr(acc__47)
+    var exprs__48 *ref_Vec_SExpr_x = ref__Ref_Vec_SExpr(acc__47)
     var i__49 *ref_int32_x = ref__Ref_int32(start__46)
     var done__50 *ref_bool_x = ref__Ref_bool(false)
     var cond400 bool
@@ -867,7 +867,7 @@ func parse_program(tokens__60 []Token) []SExpr {
     var ret402 []SExpr
     var i__61 *ref_int32_x = ref__Ref_int32(0)
     var acc__62 []SExpr = nil
-    var exprs__63 *ref_vec_sexpr_x = ref__Ref_Vec_SExpr(acc__62)
+    var exprs__63 *ref_Vec_SExpr_x = ref__Ref_Vec_SExpr(acc__62)
     var cond403 bool
     for {
         var t267 int32 = ref_get__Ref_int32(i__61)
@@ -929,7 +929,7 @@ func truthy(value__69 Value) bool {
     return ret405
 }
 
-func eval(expr__72 SExpr, local__73 []Binding, global__74 *ref_vec_binding_x) Value {
+func eval(expr__72 SExpr, local__73 []Binding, global__74 *ref_Vec_Binding_x) Value {
     var ret406 Value
     switch expr__72 := expr__72.(type) {
     case SExpr_Int:
@@ -957,7 +957,7 @@ func eval(expr__72 SExpr, local__73 []Binding, global__74 *ref_vec_binding_x) Va
     return ret406
 }
 
-func eval_list(items__79 []SExpr, local__80 []Binding, global__81 *ref_vec_binding_x) Value {
+func eval_list(items__79 []SExpr, local__80 []Binding, global__81 *ref_Vec_Binding_x) Value {
     var ret407 Value
     var t274 int32 = int32(len(items__79))
     var t273 bool = t274 == 0
@@ -987,7 +987,7 @@ func eval_list(items__79 []SExpr, local__80 []Binding, global__81 *ref_vec_bindi
     return ret407
 }
 
-func eval_list_sym(name__86 string, items__87 []SExpr, local__88 []Binding, global__89 *ref_vec_binding_x) Value {
+func eval_list_sym(name__86 string, items__87 []SExpr, local__88 []Binding, global__89 *ref_Vec_Binding_x) Value {
     var ret408 Value
     switch name__86 {
     case "begin":
@@ -1098,11 +1098,11 @@ func eval_list_sym(name__86 string, items__87 []SExpr, local__88 []Binding, glob
     return ret408
 }
 
-func eval_begin(items__100 []SExpr, start__101 int32, local__102 []Binding, global__103 *ref_vec_binding_x) Value {
+func eval_begin(items__100 []SExpr, start__101 int32, local__102 []Binding, global__103 *ref_Vec_Binding_x) Value {
     var ret409 Value
     var i__104 *ref_int32_x = ref__Ref_int32(start__101)
     var t290 Value = Nil{}
-    var last__105 *ref_value_x = ref__Ref_Value(t290)
+    var last__105 *ref_Value_x = ref__Ref_Value(t290)
     var cond410 bool
     for {
         var t291 int32 = ref_get__Ref_int32(i__104)
@@ -1127,7 +1127,7 @@ func params_from_sexprs(items__107 []SExpr) []string {
     var ret411 []string
     var i__108 *ref_int32_x = ref__Ref_int32(0)
     var acc__109 []string = nil
-    var params__110 *ref_vec_string_x = ref__Ref_Vec_string(acc__109)
+    var params__110 *ref_Vec_string_x = ref__Ref_Vec_string(acc__109)
     var cond412 bool
     for {
         var t297 int32 = ref_get__Ref_int32(i__108)
@@ -1166,11 +1166,11 @@ func params_from_sexprs(items__107 []SExpr) []string {
     return ret411
 }
 
-func eval_args(items__112 []SExpr, start__113 int32, local__114 []Binding, global__115 *ref_vec_binding_x) []Value {
+func eval_args(items__112 []SExpr, start__113 int32, local__114 []Binding, global__115 *ref_Vec_Binding_x) []Value {
     var ret413 []Value
     var i__116 *ref_int32_x = ref__Ref_int32(start__113)
     var acc__117 []Value = nil
-    var args__118 *ref_vec_value_x = ref__Ref_Vec_Value(acc__117)
+    var args__118 *ref_Vec_Value_x = ref__Ref_Vec_Value(acc__117)
     var cond414 bool
     for {
         var t310 int32 = ref_get__Ref_int32(i__116)
@@ -1460,7 +1460,7 @@ func apply_builtin(name__120 string, args__121 []Value) Value {
     return ret415
 }
 
-func apply(func__137 Value, args__138 []Value, global__139 *ref_vec_binding_x) Value {
+func apply(func__137 Value, args__138 []Value, global__139 *ref_Vec_Binding_x) Value {
     var ret418 Value
     switch func__137 := func__137.(type) {
     case Value_Int:
@@ -1480,7 +1480,7 @@ func apply(func__137 Value, args__138 []Value, global__139 *ref_vec_binding_x) V
 func apply_lambda(lambda__141 Lambda, args__142 []Value) Value {
     var ret419 Value
     var t359 []Binding = lambda__141.env
-    var env__143 *ref_vec_binding_x = ref__Ref_Vec_Binding(t359)
+    var env__143 *ref_Vec_Binding_x = ref__Ref_Vec_Binding(t359)
     var i__144 *ref_int32_x = ref__Ref_int32(0)
     var cond420 bool
     for {
@@ -1516,7 +1516,7 @@ func apply_lambda(lambda__141 Lambda, args__142 []Value) Value {
     }
     var t373 SExpr = lambda__141.body
     var t374 []Binding = ref_get__Ref_Vec_Binding(env__143)
-    var t375 *ref_vec_binding_x = lambda__141.global
+    var t375 *ref_Vec_Binding_x = lambda__141.global
     ret419 = eval(t373, t374, t375)
     return ret419
 }
@@ -1524,7 +1524,7 @@ func apply_lambda(lambda__141 Lambda, args__142 []Value) Value {
 func main0() struct{} {
     var ret421 struct{}
     var t376 []Binding = nil
-    var global__148 *ref_vec_binding_x = ref__Ref_Vec_Binding(t376)
+    var global__148 *ref_Vec_Binding_x = ref__Ref_Vec_Binding(t376)
     var program__149 string = "(begin (define fact (lambda (n) (if (= n 0) 1 (* n (fact (- n 1)))))) (define add3 (lambda (a b c) (+ a (+ b c)))) (fact 6))"
     var t377 []Token = lex(program__149)
     var exprs__150 []SExpr = parse_program(t377)
